@@ -30,7 +30,7 @@ func findJoe(P *Program) *joeParts {
 		if !inSSEPackage(fn) {
 			continue
 		}
-		eachInstrDeep(fn, func(in ssa.Instruction) {
+		eachInstr(fn, func(in ssa.Instruction) {
 			if g, ok := in.(*ssa.Go); ok {
 				gos = append(gos, g)
 			}
@@ -196,6 +196,29 @@ func rangeKeyOverJoeMap(v ssa.Value, field string) (*ssa.Next, bool) {
 }
 
 func rangeValueOverJoeMap(v ssa.Value, field string) (*ssa.Next, bool) {
+	// `for k := range m { x := m[k]` reads the same element as `for k, x := range m` when the lookup comes
+	// first in the iteration (the key was just produced by the range, so it is present)
+	if lk, ok := v.(*ssa.Lookup); ok && !lk.CommaOk && isJoeField(lk.X, field) {
+		if ke, ok := lk.Index.(*ssa.Extract); ok && ke.Index == 1 {
+			if nx, ok := ke.Tuple.(*ssa.Next); ok {
+				if rg, ok := nx.Iter.(*ssa.Range); ok && isJoeField(rg.X, field) {
+					// nothing but the range step's own branch lies between the step and the lookup
+					clean := true
+					for _, in := range lk.Block().Instrs {
+						if in == ssa.Instruction(lk) {
+							break
+						}
+						if _, isCall := in.(ssa.CallInstruction); isCall {
+							clean = false
+						}
+					}
+					if clean && len(lk.Block().Preds) == 1 && lk.Block().Preds[0] == nx.Block() {
+						return nx, true
+					}
+				}
+			}
+		}
+	}
 	e, ok := v.(*ssa.Extract)
 	if !ok || e.Index != 2 {
 		return nil, false
@@ -216,7 +239,7 @@ func rangeValueOverJoeMap(v ssa.Value, field string) (*ssa.Next, bool) {
 func subscriberClosers(P *Program) map[*ssa.Function]int {
 	out := map[*ssa.Function]int{}
 	for _, fn := range P.Funcs {
-		eachInstrDeep(fn, func(in ssa.Instruction) {
+		eachInstr(fn, func(in ssa.Instruction) {
 			c, ok := isBuiltin(in, "close")
 			if !ok {
 				return
